@@ -277,6 +277,9 @@ func YieldOn(ptr any, write bool) {}
 func TimeNow() time.Time                  { return time.Unix(0, NowNs()) }
 func TimeSince(t time.Time) time.Duration { return time.Duration(NowNs() - t.UnixNano()) }
 
+// Until is time.Until on the virtual clock (the models of zzvnet use it so that they replay natively).
+func Until(t time.Time) time.Duration { return time.Duration(t.UnixNano() - NowNs()) }
+
 func LiveGoroutines() int { return 0 }
 
 // Concretize forks the symbolic path over the feasible values of v (native: identity).
